@@ -34,7 +34,10 @@ ASSUMPTIONS = [
 # one simulated conversion + oracles
 # --------------------------------------------------------------------------------------------
 
-def simulate(spec, cap, buf, chooser, step_cap):
+PREEMPT_CHOICES = [0, 0, 0, 0, 0, 0, 0, 0, 0, 0.003, 0.003, 0.02]   # a quarter of the runs pre-empt at source-line level
+
+
+def simulate(spec, cap, buf, chooser, step_cap, preempt=None):
     fs = storage.SimFS(bufsize=buf)
     fn = workloads.converter_fn(spec, OUT)
     if spec['route'] == 'numpy':
@@ -44,7 +47,8 @@ def simulate(spec, cap, buf, chooser, step_cap):
 
     def on_return(r):
         r.at_return = fs.image(OUT) if fs.exists(OUT) else None
-    r = env.run_sim(fn, fs, chooser, step_cap=step_cap, mem_total=mem, queue_cap=qcap, on_return=on_return)
+    r = env.run_sim(fn, fs, chooser, step_cap=step_cap, mem_total=mem, queue_cap=qcap, on_return=on_return,
+                    preempt=tuple(preempt) if preempt else None)
     return fs, r
 
 
@@ -134,6 +138,8 @@ def probes_of(spec, cap, r):
     p[f'cap:{cap}'] = 1
     if s.uncaught:
         p['thread_died_with_exception'] = 1
+    if s.counters.get('preemptions'):
+        p['line_level_preemption'] = 1
     if len(qs) >= 1 and qs[0].maxsize != cap:
         p['capacity_differs_from_requested'] = 1
     return p
@@ -210,22 +216,25 @@ def one_run(ctx, run):
     wl = core.stream(seed, run, 'workload')
     spec, ref = pool[wl.randrange(len(pool))]
     cap, buf, policy = workloads.run_knobs(wl, spec)
+    pre_p = wl.choice(PREEMPT_CHOICES)
+    preempt = [pre_p, f'{seed}:{run}'] if pre_p else None
     chooser = core.make_chooser(policy, core.stream(seed, run, 'schedule'), est_steps=ref['steps'])
     step_cap = 10 * ref['steps'] + 400
-    fs, r = simulate(spec, cap, buf, chooser, step_cap)
+    fs, r = simulate(spec, cap, buf, chooser, step_cap, preempt)
     sig, what = judge(spec, ref, fs, r)
     s = r.sched
     rec = {
         'run': run, 'li': spec['id'], 'cap': cap, 'buf': buf, 'policy': policy, 'status': r.status,
         'steps': s.steps, 'td': s.trace_digest(), 'ed': s.digest(), 'differs': s.trace_digest() != ref['trace_digest'],
         'probes': probes_of(spec, cap, r), 'sig': sig, 'multi': sum(1 for k in s.nrunnable if k > 1),
+        'pre': s.counters.get('preemptions', 0),
         'simtime': s.clock,
     }
     if ctx.get('keep_sample') and run % 97 == 0:
         rec['sample'] = compact_trace(s.events)
     if sig:
         rec['violation'] = {'spec': {k: v for k, v in spec.items() if k != 'src'}, 'cap': cap, 'buf': buf,
-                            'policy': policy, 'trace': list(s.trace), 'signature': sig, 'what': what,
+                            'policy': policy, 'preempt': preempt, 'trace': list(s.trace), 'signature': sig, 'what': what,
                             'events': compact_trace(s.events, 400)}
     return rec
 
@@ -242,7 +251,7 @@ def replay_doc(doc, scratch, ref=None):
         if ref is None:
             raise common.HarnessFailure('reference run of the replayed input failed')
     chooser = core.ReplayChooser(doc['trace'])
-    fs, r = simulate(spec, doc['cap'], doc['buf'], chooser, 10 * ref['steps'] + 400)
+    fs, r = simulate(spec, doc['cap'], doc['buf'], chooser, 10 * ref['steps'] + 400, doc.get('preempt'))
     sig, what = judge(spec, ref, fs, r)
     return sig, what, r, ref
 
@@ -342,6 +351,7 @@ def _main(tier, seed, scratch, t0):
     viols = {}
     simtime = 0.0
     steps = 0
+    preemptions = 0
     for run, rec in results:
         traces[(rec['li'], rec['td'])] += 1
         if rec['differs']:
@@ -352,6 +362,7 @@ def _main(tier, seed, scratch, t0):
         knobs[f"buf:{rec['buf']}"] += 1
         simtime += rec['simtime']
         steps += rec['steps']
+        preemptions += rec.get('pre', 0)
         if 'sample' in rec and len(samples) < 4:
             samples.append({'run': run, 'input': pool_desc(pool, rec['li']), 'cap': rec['cap'], 'buf': rec['buf'],
                             'policy': rec['policy'], 'trace': rec['sample']})
@@ -360,7 +371,8 @@ def _main(tier, seed, scratch, t0):
     singletons = sum(1 for v in traces.values() if v == 1)
     expected = ['producer_blocked_on_full_queue', 'compressor_blocked_on_full_writing_queue',
                 'three_threads_runnable_at_once', 'two_items_in_flight_in_both_queues',
-                'writer_first_ran_after_last_put', 'compressor_first_ran_after_last_put', 'per_block_mode'] + \
+                'writer_first_ran_after_last_put', 'compressor_first_ran_after_last_put', 'per_block_mode',
+                'line_level_preemption'] + \
                ['route:' + r for r in workloads.ROUTES] + [f'cap:{c}' for c in workloads.CAPS]
     unreached = [p for p in expected if not probes.get(p)]
 
@@ -395,6 +407,7 @@ def _main(tier, seed, scratch, t0):
         'logical_inputs_rejected_by_reference_run': rejected,
         'runs_skipped_for_budget': len(skipped),
         'decision_points_total': steps,
+        'line_level_preemptions_total': preemptions,
         'runs_per_hour': int(evaluations / max(1e-9, wall - t_pool) * 3600),
         'simulated_time_s': round(simtime, 3),
         'fault_counts': {'none': 'C16 quantifies over schedules and capacities only; no fault is injected'},
